@@ -1,4 +1,5 @@
 import ColaVerif.Lemmas.InvWell
+import ColaVerif.Lemmas.InvNodes
 import ColaVerif.Basic.GRat
 import ColaVerif.Basic.GInt
 
@@ -21,8 +22,29 @@ rules that fire):
   outside its declared triangle (constructor precondition), Products chain;
 * at a node that falls to an algorithm: `A` is square, `Good A` (as in C01), and the CONTRACT of
   the external routine on that node: `P L U = A` / `L Lᴴ = A` with triangular factors and
-  invertible diagonals (LAPACK), `A · alg(A, X) = X` (CG: C12, GMRES: C13), or — plain `Algorithm`
+  invertible diagonals (LAPACK), `A · alg(A, X) = X` (CG, GMRES), or — plain `Algorithm`
   object — the truth of the declaration `Unitary(A)`.
+
+**What the contracts assume (read this before quoting a theorem of this file).**  Every contract is
+an EXACT statement: exact factorisation, exact solve, exact reciprocal.  Nothing here is about
+rounding, about "backward stable" or about "the requested tolerance": those parts of the property
+are carried by the correspondence harness only (tolerances of the exact stream on n ≤ 8, the
+residual claim with a derived bound of the float-side stream on n ≤ 200, props/c06_float.py).
+For the two iterative solvers the exact-solve contract `SolveContract E alg A` is what the sibling
+families prove for the solver MODELS when the iteration is run to the grade of the right-hand side:
+* GMRES: `C13_exact_at_grade_input` / `C13_exact_at_grade_injective` / `C13_exact_at_dim`
+  (Properties/C13.lean): for an injective operator, `b − A x₀ ≠ 0`, no earlier breakdown, the mask
+  clause `maskExact` and a sound dense solver, the returned iterate satisfies `b − A x = 0` once
+  `A^s r₀ ∈ K_s(A, r₀)` (in particular after `n = dim` steps).  Its hypotheses are per right-hand side
+  (one column, `b − A x₀ ≠ 0`): the contract `∀ X` of this file is therefore NOT implied for a zero
+  column — that is the recorded finding `gmres-zero-rhs-column` (`C06_solver_contract_needed`).
+* CG: `C12_optimal_inputs` / `C12_optimal_hpd` (Properties/C12.lean): for a Hermitian positive
+  definite operator and an admissible tolerance the returned iterate minimises the energy norm over
+  `x₀ + K_k`, uniquely; hence it IS the solution as soon as `x⋆ − x₀ ∈ K_k` (`k` = grade).  Before
+  the grade the iterate only satisfies the exit test (`C12_stop`), i.e. a residual bound, not `A x = b`.
+`C06_solve_iter_call` below restates the solve theorem for an operator that falls to an iterative
+algorithm with the contract required of THE ONE CALL that is made, which is the form in which the
+C12 / C13 conclusions apply.
 -/
 
 namespace C06
@@ -314,6 +336,200 @@ example :
   intro i j _ _ hij
   rw [if_neg (by omega), if_neg (by omega)]
 
+
+/-! ## round 2: hypotheses on the INPUT only
+
+`invRule … = .ok B` and `NodesOK E B` were hypotheses the caller had to supply.  They are now
+derived: `C06_succeeds` characterises success by the declarations of the input (`Declared`), and
+`C06_nodes` derives `NodesOK` from `ScalarsOK` (Lemmas/InvNodes.lean).  The `_total` theorems below
+restate the main results with hypotheses about the input (and the contracts of the external
+routines ON the input) only; the earlier statements follow from them and are kept. -/
+
+/-- **`inv(A, alg)` returns an operator (raises nothing) exactly when the declarations asserted by
+the selected rules are present**: `isa PSD` at every node where Cholesky / CG was requested
+explicitly, `isa Unitary` where a plain `Algorithm` object reaches the conditional rule. -/
+theorem C06_succeeds (E : Ext R) (alg : Alg) (A : Op R) :
+    (∃ B, invRule E alg A = .ok B) ↔ Declared alg A := invRule_ok_iff E alg A
+
+omit [CommRing R] [StarRing R] [DecidableEq R] in
+private theorem atRules_of_forall {Palg : Op R → Prop} {Pprod : List (Op R) → Prop}
+    (h1 : ∀ X, Palg X) (h2 : ∀ Ms, Pprod Ms) : ∀ (cur top : Op R), AtRules Palg Pprod top cur
+  | .annot a A, top => by rw [AtRules]; exact atRules_of_forall h1 h2 A top
+  | .eye .., _ => by rw [AtRules]; trivial
+  | .scalar .., _ => by rw [AtRules]; trivial
+  | .perm .., _ => by rw [AtRules]; trivial
+  | .diag .., _ => by rw [AtRules]; trivial
+  | .tri .., _ => by rw [AtRules]; trivial
+  | .prod Ms, top => by
+    rw [AtRules]
+    split
+    · exact ⟨h2 Ms, fun M _ => atRules_of_forall h1 h2 M M⟩
+    · exact h1 top
+  | .kron Ms, _ => by rw [AtRules]; exact fun M _ => atRules_of_forall h1 h2 M M
+  | .bdiag Ms _, _ => by rw [AtRules]; exact fun M _ => atRules_of_forall h1 h2 M M
+  | .dense .., top => by rw [AtRules]; exact h1 top
+  | .sparse .., top => by rw [AtRules]; exact h1 top
+  | .sum _, top => by rw [AtRules]; exact h1 top
+  | .kronsum _, top => by rw [AtRules]; exact h1 top
+  | .tridiag .., top => by rw [AtRules]; exact h1 top
+  | .transpose _, top => by rw [AtRules]; exact h1 top
+  | .adjoint _, top => by rw [AtRules]; exact h1 top
+  | .sliced .., top => by rw [AtRules]; exact h1 top
+  | .concat .., top => by rw [AtRules]; exact h1 top
+  | .house .., top => by rw [AtRules]; exact h1 top
+  | .generic _, top => by rw [AtRules]; exact h1 top
+termination_by cur => sizeOf cur
+decreasing_by
+  all_goals simp_wf
+  all_goals first
+    | omega
+    | (have := List.sizeOf_lt_of_mem ‹_ ∈ _›; omega)
+
+/-- **with `Auto` (or the omitted argument), `LU` or `GMRES` the rule selection never fails**, on
+any tree: the table selects Cholesky / CG only for a declared-PSD operator, LU / GMRES assert
+nothing.  (An exception of the real call on these paths can only come from inside a kernel —
+e.g. a singular matrix — i.e. from a violated contract / invertibility hypothesis.) -/
+theorem C06_succeeds_auto_lu_gmres (E : Ext R) (alg : Alg)
+    (halg : alg = .auto ∨ alg = .lu ∨ alg = .gmres) (A : Op R) : ∃ B, invRule E alg A = .ok B := by
+  rw [C06_succeeds]
+  apply atRules_of_forall (fun X => ?_) (fun _ => trivial)
+  rcases halg with rfl | rfl | rfl
+  · exact algDeclared_auto X
+  · simp [AlgDeclared, effAlg]
+  · simp [AlgDeclared, effAlg]
+
+/-- **C06, main statement with hypotheses on the input only**: if the data of `A` is invertible
+along the selected rules (`InvHyp`, including the contract of the external routine at the nodes
+that fall to an algorithm — the contracts say EXACT factorisation / EXACT solve, see the header)
+and the asserted declarations are present, then `inv(A, alg)` returns an operator `B` of the shape
+of `A` that represents the two-sided inverse and whose product code multiplies by it. -/
+theorem C06_inv_total (E : Ext R) (alg : Alg) (A : Op R) (h : InvHyp E alg A)
+    (hd : Declared alg A) :
+    ∃ B, invRule E alg A = .ok B ∧ A.cols = A.rows ∧ B.rows = A.rows ∧ B.cols = A.rows ∧
+      EqOn A.rows A.rows (mmul A.rows (B.den E).f A.den.f) eyeM ∧
+      EqOn A.rows A.rows (mmul A.rows A.den.f (B.den E).f) eyeM ∧
+      ∀ (b : Nat) (X : MatF R), EqOn A.rows b (B.mm E b X).f (mmul A.rows (B.den E).f X) := by
+  obtain ⟨B, hB⟩ := (C06_succeeds E alg A).mpr hd
+  obtain ⟨h1, h2, h3, h4, h5⟩ := C06_inv E alg A h B hB
+  exact ⟨B, hB, h1, h2, h3, h4, h5, C06_matmat E alg A h B hB⟩
+
+/-- **`solve(A, X, alg)` returns, and what it returns is the unique solution of `A · Y = X`** —
+hypotheses on the input only. -/
+theorem C06_solve_total (E : Ext R) (alg : Alg) (A : Op R) (h : InvHyp E alg A)
+    (hd : Declared alg A) (b : Nat) (X : MatF R) :
+    ∃ Y, solveRule E alg A b X = .ok Y ∧ EqOn A.rows b (mmul A.rows A.den.f Y.f) X ∧
+      ∀ Z : MatF R, EqOn A.rows b (mmul A.rows A.den.f Z) X → EqOn A.rows b Z Y.f := by
+  obtain ⟨B, hB⟩ := (C06_succeeds E alg A).mpr hd
+  have hY : solveRule E alg A b X = .ok (B.mm E b X) := by
+    unfold solveRule; rw [hB]; rfl
+  exact ⟨_, hY, C06_solve E alg A h b X _ hY, fun Z hZ => C06_solve_unique E alg A h b X _ hY Z hZ⟩
+
+/-- **`NodesOK` of the result is derived from the input**: under `ScalarsOK` (at a Product inverted
+member-wise that has exactly one non-ScalarMul member, the scalars are real; the adjoint returned
+by the conditional Unitary rule is not itself a ScalarMul) every composite node of `inv(A, alg)`
+that reports SelfAdjoint is Hermitian.  `ScalarsOK` is the input-level form of "the recorded
+defect `scalar-times-annotated` does not occur in the result". -/
+theorem C06_nodes (E : Ext R) (alg : Alg) (hstar : RecipStar E) (A : Op R) (h : InvHyp E alg A)
+    (hg : Op.Good A) (hr : A.RealTyped) (hsc : ScalarsOK alg A) (B : InvOp R)
+    (hB : invRule E alg A = .ok B) : NodesOK E B := invRule_nodes E alg hstar A h hg hr hsc B hB
+
+/-- **the returned operator as an operator, hypotheses on the input only**: `inv(A, alg)` returns
+`B`, and `X @ B`, `B.to_dense()`, `B.T.to_dense()` are those of the inverse of `A`. -/
+theorem C06_operator_total (E : Ext R) (alg : Alg) (hstar : RecipStar E) (A : Op R)
+    (h : InvHyp E alg A) (hd : Declared alg A) (hg : Op.Good A) (hr : A.RealTyped)
+    (hsc : ScalarsOK alg A) :
+    ∃ B, invRule E alg A = .ok B ∧ WellI E B ∧
+      (∀ (b : Nat) (X : MatF R), EqOn b A.rows (B.rmm E b X).f (mmul A.rows X (B.den E).f) ∧
+        EqOn b A.rows (mmul A.rows (B.rmm E b X).f A.den.f) X) ∧
+      (EqOn A.rows A.rows (B.td E).f (B.den E).f ∧
+        EqOn A.rows A.rows (mmul A.rows (B.td E).f A.den.f) eyeM) ∧
+      (EqOn A.rows A.rows (B.tdT E).f (transposeM (B.den E).f) ∧
+        EqOn A.rows A.rows (mmul A.rows (B.tdT E).f (transposeM A.den.f)) eyeM) := by
+  obtain ⟨B, hB⟩ := (C06_succeeds E alg A).mpr hd
+  have hw := invRule_well_input E alg hstar A h hg hr hsc B hB
+  exact ⟨B, hB, hw, fun b X => C06_left E alg A h B hB hw b X, C06_dense E alg A h B hB hw,
+    C06_transpose E alg A h B hB hw⟩
+
+/-- **iterative path, per call**: when the class of `A` has no rule of its own and CG / GMRES is
+selected (`invRule … = .ok (.iterInv A alg')`), `solve(A, X, alg)` is the one call `alg'(A, X)`, and
+it solves `A · Y = X` as soon as THAT call is exact — no contract for other operands is needed.
+The hypothesis `hcall` is the conclusion of `C13_exact_at_grade_input` (GMRES run to the grade of
+the column) resp. of `C12_optimal_inputs` with `x⋆ − x₀ ∈ K_k` (CG) for the solver models of
+those families. -/
+theorem C06_solve_iter_call (E : Ext R) (alg alg' : Alg) (A : Op R)
+    (hB : invRule E alg A = .ok (.iterInv A alg')) (b : Nat) (X : MatF R)
+    (hcall : EqOn A.rows b (mmul A.rows A.den.f (E.solve alg' A b X).f) X) :
+    ∃ Y, solveRule E alg A b X = .ok Y ∧ Y = E.solve alg' A b X ∧
+      EqOn A.rows b (mmul A.rows A.den.f Y.f) X := by
+  refine ⟨E.solve alg' A b X, ?_, rfl, hcall⟩
+  unfold solveRule
+  rw [hB]
+  simp [Except.map, InvOp.mm]
+
+/-- … and such operators exist on every iterative path: a Dense operator with GMRES, a
+PSD-declared Dense operator with CG (explicitly or — above 10⁶ entries — through `Auto`). -/
+theorem C06_iter_paths (E : Ext R) (a : MatF R) :
+    invRule E .gmres (.dense .f64 3 3 a) = .ok (.iterInv (.dense .f64 3 3 a) .gmres) ∧
+    invRule E .cg (.annot .psd (.dense .f64 3 3 a)) = .ok (.iterInv (.annot .psd (.dense .f64 3 3 a)) .cg) ∧
+    invRule E .auto (.annot .psd (.dense .f64 1001 1001 a))
+      = .ok (.iterInv (.annot .psd (.dense .f64 1001 1001 a)) .cg) ∧
+    invRule E .auto (.dense .f64 1001 1001 a) = .ok (.iterInv (.dense .f64 1001 1001 a) .gmres) := by
+  refine ⟨?_, ?_, ?_, ?_⟩ <;>
+    simp [invRule, invAux, algRule, effAlg, autoChoice, Op.isa, Op.anns, AnnSet.isa, AnnSet.union,
+      Ann.sub, Op.rows, Op.cols]
+
+/-- the declaration hypothesis is needed for success: `inv(Dense, Cholesky())` on an operator that
+is not declared PSD raises (`assert A.isa(PSD)`), whatever the matrix is. -/
+theorem C06_declared_needed (E : Ext R) (a : MatF R) :
+    invRule E .chol (.dense .f64 2 2 a) = .error "error:AssertionError" ∧
+      ¬ Declared .chol (.dense .f64 2 2 a : Op R) := by
+  constructor
+  · simp [invRule, invAux, algRule, effAlg, Op.isa, Op.anns, AnnSet.isa]
+  · simp [Declared, AtRules, AlgDeclared, effAlg, Op.isa, Op.anns, AnnSet.isa]
+
+/-- on the witness of `C06_scalar_times_annotated_clause_needed` it is `ScalarsOK` that fails (the
+scalar `i` is not real and the Product has exactly one other member): the new input-level
+hypothesis excludes the recorded defect.  (On that input the Product node of the INPUT already
+reports PSD falsely — the same C05 defect — so `Op.Good` fails as well; `ScalarsOK` is a
+sufficient condition that does not mention the result.) -/
+theorem C06_scalarsOK_needed :
+    ¬ ScalarsOK .auto (.kron [.prod [.eye .c128 1, .scalar .c128 GInt.I 1]] : Op GInt) := by
+  intro h
+  simp only [ScalarsOK] at h
+  rw [AtRules] at h
+  have h1 := h _ List.mem_cons_self
+  rw [AtRules] at h1
+  simp only [allSquare, Op.rows, Op.cols, List.map_cons, List.map_nil, List.all_cons, List.all_nil,
+    beq_self_eq_true, Bool.and_self, id, if_true] at h1
+  have := h1.1 (by simp [Op.isScalarMul, Op.core]) (.scalar .c128 GInt.I 1) (by simp) .c128 GInt.I 1 rfl
+  revert this
+  decide
+
+/-- **witness for the input-only hypothesis bundle** (`C06_inv_total`, `C06_solve_total`,
+`C06_operator_total`) on a nested 2 × 2 tree over ℤ containing every structural kind, a declaration
+wrapper and a Product with exactly one non-ScalarMul member and a (real) ScalarMul member. -/
+theorem C06_input_hypotheses_witness :
+    let T : Op Int := .tri .f64 2 2 true (fun i j => if i = j then 1 else if i = 1 ∧ j = 0 then 3 else 0)
+    let A : Op Int := .prod [.kron [T, .scalar .f64 (-1) 1],
+      .annot .unitary (.perm .f64 [1, 0]), .prod [.scalar .f64 (-1) 2, .diag .f64 2 (fun _ => -1)]]
+    InvHyp unitExt .auto A ∧ Declared .auto A ∧ Op.Good A ∧ A.RealTyped ∧ ScalarsOK .auto A ∧
+      RecipStar unitExt := by
+  intro T A
+  refine ⟨?_, ?_, ⟨?_, ?_, ?_⟩, ?_, ?_, ?_⟩
+  · simp [A, T, InvHyp, HypAux, allSquare, Op.rows, Op.cols, Op.chainOk, LowerTri, DiagUnit, unitExt]
+    intro i j _ _ hij
+    rw [if_neg (by omega), if_neg (by omega)]
+  · exact atRules_of_forall (fun X => algDeclared_auto X) (fun _ => trivial) _ _
+  · simp [A, T, Op.wf, Op.rows, Op.cols, Op.chainOk]
+  · simp [A, T, Op.dupSlice]
+  · simp [A, T, Op.HermOK, Op.HermNode, Op.isa, Op.anns, AnnSet.isa, AnnSet.union, AnnSet.inter,
+      AnnSet.interAll, Op.isScalarMul, Op.core, Op.isTA, Op.isT, Op.areTheSame, Ann.sub]
+  · simp [A, T, Op.RealTyped]
+  · simp only [A, T, ScalarsOK]
+    rw [AtRules]
+    simp [allSquare, Op.rows, Op.cols, AtRules, ProdScalarsReal, Op.isScalarMul, Op.core]
+  · intro x; rfl
+
 end C06
 
 #print axioms C06.C06_inv
@@ -336,3 +552,14 @@ end C06
 #print axioms C06.C06_triangular_payload_needed
 #print axioms C06.C06_solver_contract_needed
 #print axioms C06.C06_unitary_declaration_needed
+#print axioms C06.C06_succeeds
+#print axioms C06.C06_succeeds_auto_lu_gmres
+#print axioms C06.C06_inv_total
+#print axioms C06.C06_solve_total
+#print axioms C06.C06_nodes
+#print axioms C06.C06_operator_total
+#print axioms C06.C06_solve_iter_call
+#print axioms C06.C06_iter_paths
+#print axioms C06.C06_declared_needed
+#print axioms C06.C06_scalarsOK_needed
+#print axioms C06.C06_input_hypotheses_witness
